@@ -1459,7 +1459,19 @@ def reduce(kind, t, dim=None, keepdim=False, label=""):
 def max_with_indices(t, dim, keepdim=False, kind="max"):
     v = reduce(kind, t, dim, keepdim)
     i = reduce("arg" + kind, t, dim, keepdim)
-    # link: t[..., i] == v  (assumed contract of torch.max: indices attain the value)
+    # link (assumed contract of torch.max / torch.min with dim): the returned index attains the returned value,
+    # values[o] == input[o, indices[o]] - stated once, quantified over the outer indices with the value as trigger,
+    # so that "max == element at argmax" is a one-step fact instead of a consequence of two separate lemma families
+    rv = v.prov[1] if (v.prov and v.prov[0] == "red") else None
+    ri = i.prov[1] if (i.prov and i.prov[0] == "red") else None
+    if rv is not None and ri is not None and rv.dtype != "b":
+        ctx = cur()
+        outs = [z3.Int(f"mxo_{rv.id}_{k}") for k in range(rv.outer_rank)]
+        rng = [z3.And(o_ >= 0, o_ < zint(n_)) for o_, n_ in zip(outs, v.shape if not keepdim else [s_ for d_, s_ in enumerate(v.shape) if d_ != norm_dim(dim, t.rank)])]
+        fact = z3.Implies(z3.And(*rng, zint(rv.ns[0]) >= 1) if rng else zint(rv.ns[0]) >= 1,
+                          z3.And(ri.app(tuple(outs)) >= 0, ri.app(tuple(outs)) < zint(rv.ns[0]),
+                                 rv.app(tuple(outs)) == rv.body(tuple(outs), (ri.app(tuple(outs)),))))
+        ctx.assume(z3.ForAll(outs, fact, patterns=[rv.app(tuple(outs))]) if outs else fact)
     return MaxResult(v, i)
 
 
